@@ -221,7 +221,7 @@ CHECKS = {
         design="2/C20"),
     "C15": dict(
         text="Coq theorems: decode(encode vs) = vs for all well-formed values (full i64, binary strings, arbitrary nesting, "
-             "prefix keys), encode v is in the independent inductive canonical grammar (ascending keys, shortest integers "
+             "prefix keys; hence encode is injective), encode v is in the independent inductive canonical grammar (ascending keys, shortest integers "
              "and length prefixes), and every canonical document decodes and re-encodes to itself byte for byte. Proved "
              "by nested induction over values / mutual induction over the grammar, with the decimal print/parse inverse "
              "lemmas proved from scratch. Tie: differential runs of BEncoder/BDecoder vs the model with an independent "
